@@ -1,12 +1,12 @@
 \* C06 simulation: long arrival sequences, size+skip around the real slice/heap
 \* switch (10), all sort specs; behaviours are replayed step-wise into the real collector.
-SPECIFICATION Spec
+SPECIFICATION SimSpec
 CONSTANTS
   Sorts <- SortsSim
   Sizes = {0, 1, 2, 3, 4, 5, 6, 7, 8, 9, 10, 11, 12, 13}
   Skips = {0, 1, 2, 3, 4, 5, 6, 7, 8, 9, 10, 11, 12}
   Totals = {2, 5, 9, 10, 11, 12, 13}
-  AfterSizes = {2, 9, 10, 11, 12}
+  AfterSizes = {2, 11}
   ReqModes = {"page", "after", "before"}
   MaxN = 18
   MaxN2 = 18
